@@ -36,7 +36,7 @@ def tree_hash(root):
                 h.update(open(p, "rb").read())
     return h.hexdigest()[:16]
 
-def apply_overlay(repo, infile=True, prepend=False):
+def apply_overlay(repo, infile=True, prepend=False, skip=()):
     """Append-only / prepend-only instrumentation, all under cfg(kani)/cfg(unimock_verif)."""
     src = os.path.join(repo, "src")
     shutil.copy(os.path.join(OVERLAY, "src", "verif.rs"), os.path.join(src, "verif.rs"))
@@ -48,6 +48,8 @@ def apply_overlay(repo, infile=True, prepend=False):
         for dirpath, _, files in os.walk(d):
             for fn in files:
                 rel = os.path.relpath(os.path.join(dirpath, fn), d)
+                if rel in skip:
+                    continue
                 target = os.path.join(src, rel)
                 if not os.path.exists(target):
                     raise RuntimeError(f"overlay target missing: src/{rel}")
